@@ -135,6 +135,8 @@ def iter_kind(ip, it):
     c = ip.c
     if isinstance(it, Sym) and it.t.sort() == Val:
         it = ip.resolve(it)
+        if isinstance(it, Sym) and it.t.sort() == Val:
+            it = ip.resolve_untyped(it)
     if it is None:
         ip.py_raise(TypeError, "'NoneType' object is not iterable")
     if isinstance(it, tuple):
